@@ -2,6 +2,7 @@
     the front end's parser makes when it reads that text back. *)
 From PegV Require Import Base.Tac Base.ListX Spec.Syntax Spec.Peg Proofs.PegRel Model.Calls Generated.PegPeg
   Reader.Base Reader.Lex Reader.Chars Reader.Lits.
+From PegV Require Model.Front.
 Local Open Scope Z_scope.
 
 (** * concrete syntax: every token carries the layout that follows it *)
@@ -118,6 +119,19 @@ Fixpoint adj (l : list cx) : Prop :=
   | _ => True
   end.
 
+(** the code point a spelling stands for (Model/Front.v's decoders) *)
+Definition kval (k : cchar) : Z :=
+  match k with
+  | KRaw c => c
+  | KEsc c => esc_val c
+  | KHex _ ds => Front.add_hexa (map hexval ds)
+  | KOct ds => Front.add_octal (map octval ds)
+  end.
+(** Model/Front.v folds case for ASCII letters only, the Go builder (strings.ToLower / ToUpper) for all of
+    Unicode: the end points of a [[a-z]] range stay below 128, where the two agree *)
+Definition ranges_ascii (items : list citem) : bool :=
+  forallb (fun i => match i with IRange lo hi => (kval lo <? 128) && (kval hi <? 128) | IChar _ => true end) items.
+
 Definition is_sufop (op : rune) : Prop := op = 63 \/ op = 42 \/ op = 43.
 Definition is_preop (op : rune) : Prop := op = 38 \/ op = 33.
 
@@ -127,7 +141,8 @@ Inductive wf : cx -> Prop :=
 | wf_name id s : ident_ok id = true -> lay s -> wf (XName id s)
 | wf_act a s : bal a -> lay s -> wf (XAct a s)
 | wf_lit dbl ks s : chars_ok (quote_of dbl) ks [quote_of dbl] = true -> lay s -> wf (XLit dbl ks s)
-| wf_class dbl neg items s : class_wf dbl neg items = true -> citems_ok items (cclose dbl) = true -> lay s ->
+| wf_class dbl neg items s : class_wf dbl neg items = true -> citems_ok items (cclose dbl) = true ->
+    (dbl = true -> ranges_ascii items = true) -> lay s ->
     wf (XClass dbl neg items s)
 | wf_group s1 e s2 : lay s1 -> wf e -> lay s2 -> wf (XGroup s1 e s2)
 | wf_push s1 e s2 : lay s1 -> wf e -> lay s2 -> wf (XPush s1 e s2)
@@ -417,7 +432,7 @@ Proof.
     exists t1. into_rule. destruct dbl; cbn [quote_of] in *;
       (eapply C_eq; [crun|lenlia|reflexivity|reflexivity]).
   - (* class *)
-    inversion Hw as [| | | |? ? ? ? Hcw Hci Hs| | | | | | | |]; subst.
+    inversion Hw as [| | | |? ? ? ? Hcw Hci Hra Hs| | | | | | | |]; subst.
     rewrite <- !app_assoc in Hat.
     pose proof (citems_ok_tail dbl items (s ++ rest) Hci) as Hci'.
     destruct (class_ok buf penv dbl neg items s rest p t Hcw Hci' Hs Hstop Hat) as [t1 Hcl].
